@@ -432,6 +432,8 @@ def run(rep, tier, seed):
             rep.violation(f"{PID}:{key}", f"TLC rejected event {rj['event']} of history {rj['trace']}: clauses {rj['clauses']}",
                           {"kind": "history-event", "pre": pre, "event": e})
     rep.sample({"history_event": traces[0]["events"][min(5, len(traces[0]["events"]) - 1)]})
+    from harness import suite
+    suite.run_for(rep, "C09")
     rep.cov["evaluations"] = nT + nQ + nP + nW + nev
     rep.cov["distinct_nontrivial"] = nT + nQ
     rep.cov["rule"] = ("every labelled transition and every state (with all query values) of the TLC state graph of MC_Edit "
